@@ -33,6 +33,7 @@ pub fn check_limits(e: &Entry, bytes: &[u8], known_val: Option<&Val>, family: &s
 	let plain = guard(|| (e.decode_slice.unwrap())(bytes))
 		.map_err(|p| Violation::new(format!("C11/panic/plain/{}", e.ty.family()), format!("type {}: {p}", e.name)))?;
 	let d_hi = known_val.map(|v| depth_hi(&e.ty, v));
+	let d_lo = known_val.map(|v| depth_lo(&e.ty, v));
 	let top = d_hi.unwrap_or(e.ty.static_depth() as u32).min(70) + 2;
 	stats.eval();
 	stats.class(&format!("input:{family}"));
@@ -96,11 +97,13 @@ pub fn check_limits(e: &Entry, bytes: &[u8], known_val: Option<&Val>, family: &s
 					),
 				));
 			}
-			if i64::from(limit) < i64::from(d) - 1 && ok {
+			let lo = d_lo.unwrap_or(0);
+			stats.class(&format!("D_hi-D_lo:{}", d - lo));
+			if limit < lo && ok {
 				return Err(Violation::new(
 					format!("C11/necessary/{}", e.ty.family()),
 					format!(
-						"type {}: value recurses through {d} container levels but decoding with limit {limit} succeeds\nbytes {}\nvalue {}",
+						"type {}: value recurses through {d} container levels ({lo} of them counted even by the crate's documented rule, which leaves out leaf vectors of bulk-read primitives, strings and bit sequences) but decoding with limit {limit} succeeds\nbytes {}\nvalue {}",
 						e.name,
 						hex(bytes),
 						known_val.unwrap().brief(300)
@@ -287,11 +290,11 @@ pub fn run(ctx: &Ctx) -> (Level, Report) {
 			rule: "values: zoo types nesting Vec/Box/Rc/Arc/BTreeMap/BTreeSet/LinkedList/VecDeque/BinaryHeap/Option/tuples and recursive derived types, \
 wide-but-shallow and deep-but-narrow (recursion depth up to 60) generated values, every limit L in 0..=D_hi+2: (1) limited result is Err or equals \
 the unlimited result, (2) success at L implies success at L+1, (3) success whenever L >= D_hi (container nesting depth of the value), (4) failure \
-whenever L < D_hi-1, (5) decode_all_with_depth_limit succeeds iff the limited decode succeeds and nothing remains; bytes: the same clauses 1, 2, 5 \
+whenever L < D_lo (D_hi without the leaf containers the crate is tested not to count: Vec/VecDeque/BinaryHeap/byte buffers of integers and floats, String, bit sequences), (5) decode_all_with_depth_limit succeeds iff the limited decode succeeds and nothing remains; bytes: the same clauses 1, 2, 5 \
 on mutated strings; stack safety: inputs nested 3e2..1e6 levels for seven recursive types (through Vec, Box, BTreeMap, Arc, Rc) with L in {0,1,2,16,64,100,256} decoded on a 2 MiB stack \
 inside a crash-recovering worker process (must return Err; a dead worker is a violation). Non-trivial = value with D_hi >= 2, or a deep input.",
 			assumptions: vec![
-				"the depth threshold is a one-level band (D_hi-1 ..= D_hi): the crate does not count a leaf container of bulk primitives and its own test requires that",
+				"between D_lo and D_hi either outcome is accepted: the crate does not count a leaf container of bulk-read primitives (its own test requires that); for every other container the threshold is exact",
 				"stack safety is observed at one stack size (2 MiB, std's default for spawned threads)",
 			],
 		},
